@@ -150,18 +150,27 @@ pub mod mio {
     pub struct Events { _p: u8 }
     #[verifier::external_body]
     pub struct EventsIter<'a> { _p: core::marker::PhantomData<&'a Events> }
+    /// a readiness event the poll instance can deliver at all: its token is one a source was registered with (environment)
+    pub uninterp spec fn wakeup_possible(e: Event) -> bool;
     impl Events {
+        /// number of events of the last poll
+        pub uninterp spec fn count(&self) -> nat;
         #[verifier::external_body]
         pub fn with_capacity(n: usize) -> (r: Events) { unimplemented!() }
         #[verifier::external_body]
-        pub fn is_empty(&self) -> (r: bool) { unimplemented!() }
+        pub fn is_empty(&self) -> (r: bool) ensures r == (self.count() == 0) { unimplemented!() }
         #[verifier::external_body]
-        pub fn iter(&self) -> (r: EventsIter<'_>) { unimplemented!() }
+        pub fn iter(&self) -> (r: EventsIter<'_>) ensures r.remaining() == self.count() { unimplemented!() }
     }
     impl<'a> EventsIter<'a> {
+        pub uninterp spec fn remaining(&self) -> nat;
         /// every event carries a token some source was registered with (R7 iterator mirror)
         #[verifier::external_body]
-        pub fn next(&mut self) -> (r: Option<Event>) { unimplemented!() }
+        pub fn next(&mut self) -> (r: Option<Event>)
+            ensures r is Some <==> old(self).remaining() > 0,
+                r is Some ==> final(self).remaining() == old(self).remaining() - 1 && wakeup_possible(r->0),
+                r is None ==> final(self).remaining() == 0,
+        { unimplemented!() }
     }
     /// kernel poll state is opaque: registration calls may fail, nothing else is known
     #[verifier::external_body]
